@@ -13,10 +13,10 @@ def c(text, ref, extra_tech, trusted):
 
 
 CHECKS = {
- 'C01': c('Every path of schedule/step/peek/Environment.__init__ and of the Timeout/Initialize/Interruption constructors is '
+ 'C01': c('Every path of schedule/step/peek/Environment.__init__, of run() as far as the numeric stop goes, of Process._resume as far as the agenda goes, and of the Timeout/Initialize/Interruption constructors is '
           'shown equivalent to a reference table: agenda key (now+delay, priority, next id, event), clock written from the '
           'popped key only, negative delay refused before scheduling; the refusing guards of Timeout(delay) and run(until) evaluated for a NaN argument. Whole-repo scans: writers of the clock, agenda and '
-          'insertion counter; priority class and constants at all 9+ schedule() sites. Time order / urgent-first / trigger '
+          'insertion counter; priority class and constants at all 9+ schedule() sites; no schedule() delay is a difference from the clock (float drift of the due time). Time order / urgent-first / trigger '
           'order follow from these by a short argument (DESIGN); universally quantified over programs because it is about '
           'the code, not about sampled runs.',
           'C01', 'who-may scans over the whole repository and constant resolution', 'IEEE addition monotone for non-negative delays'),
@@ -24,12 +24,12 @@ CHECKS = {
           'copy), Event.succeed/fail/trigger (second trigger refused before any write; a Process refuses hand-made triggers), Process._resume (value sent / '
           'failure defused and thrown as a copy / termination outcome / immediate continuation on processed events / single '
           'subscription) equivalent to reference tables; who-may scans of outcome writers and of every growth or removal on a '
-          'callbacks list; exception classes clonable; handlers around a step() call name only the stop signal.',
+          'callbacks list; exception classes clonable; handlers around a step() call name only the stop signal; the raising stop callback sits only on an event created on the same path.',
           'C02', 'who-may scans of _ok/_value/callbacks sites', 'what user callbacks do'),
  'C03': c('Environment.run equivalent to the reference (numeric until refused iff at <= now, fresh private sentinel URGENT at '
           'at-now, stop callback only on that sentinel; event until polled after each step so every waiter is resumed before '
           'the stop), step and StopSimulation.callback; whole-repo flow scan for nondeterminism sources (wall clock, id/hash, '
-          'uuid reaching anything but __repr__, order-sensitive iteration over sets incl. float accumulation).',
+          'uuid reaching anything but __repr__, order-sensitive iteration over sets incl. float accumulation); no schedule() delay is a difference from the clock.',
           'C03', 'a whole-repo scan of nondeterminism sources classified by sink', 'user programs are themselves deterministic'),
  'C04': c('Interruption.__init__ (pre-failed, pre-defused, dead and self targets refused before scheduling, URGENT), '
           '_interrupt (dead victim ignored, victim alone detached, then resumed), Process.__init__/Initialize (start scheduled '
